@@ -174,7 +174,7 @@ def part_universe(ctx, shard):
             ctx.decided(s)
             # every exposed name must be usable and have exactly one reading
             if got[0] != "ok":
-                ctx.violation(f"C14|exposed|sym={_canon_sym(exposed[s])}|mode=name-not-usable-as-string", case, "resolves", got)
+                ctx.violation(f"C14|exposed|sym={_canon_sym(exposed[s])}|spelling={_spelling(s)}|mode=name-not-usable-as-string", case, "resolves", got)
                 continue
             if not exp:
                 ctx.violation(f"C14|exposed|sym={_canon_sym(exposed[s])}|mode=exposed-name-has-no-reading", case, None, got)
@@ -233,6 +233,19 @@ def _rest_sym(s):
     return "?"
 
 
+def _spelling(name):
+    """how a name is put together: <prefix kind>+<the name the prefix is attached to> (part of violation keys, so that a
+    known defect of one spelling family cannot hide a new one of another)"""
+    for w in sorted(PREFIX_WORDS, key=len, reverse=True):
+        for ww, kind in ((w, "word"), (w.title(), "Word")):
+            if name.startswith(ww) and name[len(ww) :] in BASE:
+                return f"{kind}+{name[len(ww):]}"
+    for ps in sorted(PREFIX_SYMS, key=len, reverse=True):
+        if name.startswith(ps) and name[len(ps) :] in BASE and name not in BASE:
+            return f"symbol+{name[len(ps):]}"
+    return "plain"
+
+
 def _canon_sym(canon):
     if canon in default_unit_symbol_lut:
         return canon
@@ -275,7 +288,7 @@ def part_attrs(ctx, shard):
         ctx.decided(name)
         sym = _canon_sym(exposed_names().get(name, name))
         if s[0] != "ok":
-            ctx.violation(f"C14|attr|sym={sym}|mode=attribute-name-not-usable-as-string", case, a, s)
+            ctx.violation(f"C14|attr|sym={sym}|spelling={_spelling(name)}|mode=attribute-name-not-usable-as-string", case, a, s)
         elif s[1:4] != a[1:4]:
             ctx.violation(f"C14|attr|sym={sym}|mode=attribute-differs-from-string", case, a, s)
         t = top.get(name)
